@@ -61,6 +61,9 @@ def work(tier, seed):
                 heavy = P + Q + ep + en >= 6
                 items.append({"kind": "tree", "blocks": [list(x) for x in bl], "easy": [ep, en], "cfg": cfg,
                               "heavy": heavy})
+                if not heavy and ep + en > 0:
+                    items.append({"kind": "tree", "blocks": [list(x) for x in bl], "easy": [ep, en], "cfg": cfg, "heavy": False,
+                                  "history": True})
     # stratified sampling with many easy samples: the four strata must be preserved exactly for every
     # (hard, easy) count pair (their quotient is rounding-sensitive); by_label trees are small
     for hp_, hn_ in ((1, 1), (2, 1), (3, 2), (4, 1)):
@@ -257,6 +260,19 @@ def run(item, ctx, tier, seed):
     pin, nin = pos[::-1], neg[::-1]
     both = bool(pos) and bool(neg)
     src = Scores(pin, nin, nb_easy_pos=ep, nb_easy_neg=en, score_class=sc, equal_class=ec)
+    if item.get("history"):
+        # the source declared other easy counts, was sampled from under every method, and was then given these counts
+        # through its public attributes (array lengths unchanged): it is the source described by its current state
+        src = Scores(pin, nin, nb_easy_pos=ep + 3, nb_easy_neg=en + 1, score_class=sc, equal_class=ec)
+        warm = rngtree.Oracle((), 4000, cycle_uniform=True)
+        with rngtree.owned(warm):
+            for m_, st_ in (("replacement", None), ("replacement", "by_label"), ("single_pass", None)):
+                if pos and neg or m_ == "replacement":
+                    try:
+                        src.bootstrap_sample(BootstrapConfig(sampling_method=m_, stratified_sampling=st_))
+                    except Exception:  # noqa - judged below on the re-assigned object, not here
+                        pass
+        src.nb_easy_pos, src.nb_easy_neg = ep, en
     configs = [("replacement", None, False), ("replacement", "by_label", False), ("dynamic", None, False)]
     if both:
         configs += [("single_pass", "by_label", False), ("single_pass", None, False)]
@@ -271,6 +287,8 @@ def run(item, ctx, tier, seed):
             continue
         case = {"pos": pos, "neg": neg, "easy": [ep, en], "cfg": list(cfg), "method": method, "stratified": strat,
                 "smoothing": smoothing, "ratio": ratio}
+        if item.get("history"):
+            case["history"] = "sampled with easy counts (+3, +1), then nb_easy_pos / nb_easy_neg re-assigned"
         if method == "callable":
             marker = Scores([1.0], [0.0])
             cfgobj = BootstrapConfig(sampling_method=lambda s: marker)
@@ -560,7 +578,7 @@ def _run_proportion_sizes(item, ctx, tier):
     ratios = [r / 100.0 for r in range(1, 100)] if tier == "thorough" else [0.03, 0.12, 0.15, 0.25, 0.3, 0.34, 0.5, 0.6, 0.7, 0.75,
                                                                            0.9, 0.97, 0.99]
     sizes = list(range(1, 201)) if tier == "thorough" else list(range(1, 41)) + [50, 100, 200]
-    ratios_big = [1 / 16, 1 / 32, 0.02, 0.3]
+    ratios_big = [1 / 16, 1 / 32, 0.02, 0.3, 0.003, 0.002, 0.0007]  # the last three: a handful of scores out of thousands
     sizes_big = [1024, 2048, 4097] + ([20000, 70000] if tier == "thorough" else [])
     combos = ([(r, n) for r in ratios for n in sizes] + [(r, n) for r in ratios_big for n in sizes_big])[item["part"]::item["parts"]]
     for ratio, n in combos:
